@@ -319,7 +319,7 @@ REGISTRY["C20"] = {
                    "from separate goroutines), draw batches of 1..20000 ids from 1..16 goroutines concurrently, snapshot a generator, restore a new generator from "
                    "an earlier snapshot; up to 2*10^5 draws per history (10^6 thorough). Oracle: global sets keyed by String() and by Bytes(): every id of a "
                    "non-restored generator is new; a restored generator's ids are disjoint from what its source issued before the snapshot; plus the flow and "
-                   "instance ids seen in the traces of all engine runs executed in the same test binary never repeat. Draws also come from 2..4 different generators at the same time (one goroutine each); generators carry a lineage (related by snapshot / restore): ids of generators of different lineages must never collide, restored generators included."),
+                   "instance ids seen in the traces of all engine runs executed in the same test binary never repeat. Draws also come from 2..4 different generators at the same time (one goroutine each); generators carry a lineage (related by snapshot / restore): ids of generators of different lineages must never collide, restored generators included. TestC20Exhaustion (a process of its own): 140 000 (thorough 280 000) generators are requested - more than twice the 65 535 partitions of the id library - while the first three and every 5000th stay in use; every identifier of every generator that was handed out must be new."),
     "level_note": "Trusted: nothing beyond Go maps. Ids a source issues after the snapshot are not compared with the restored generator's (two live holders of one partition are outside the statement). Collisions of time-derived fallback prefixes or random sno partitions across generators are possible in principle with negligible probability; a reported collision prints the values.",
     "technique": "rapid stateful property test (generator pool history) with a global uniqueness oracle; concurrent draws",
     "rule": ("Distinct = history descriptor. Non-trivial = >=2 goroutines drawing >=10^4 ids concurrently from one generator, or >=2 generators alive, or a restore."),
@@ -327,6 +327,7 @@ REGISTRY["C20"] = {
     "tests": [
         {"name": "TestC20Pool", "checks": {"quick": 25, "thorough": 150}, "shards": {"quick": 8, "thorough": 16}},
         {"name": "TestC20EngineIds", "checks": {"quick": 300, "thorough": 3000}, "shards": {"quick": 2, "thorough": 8}},
+        {"name": "TestC20Exhaustion", "mode": "plain", "shards": {"quick": 1, "thorough": 1}},
     ],
 }
 
